@@ -504,6 +504,28 @@ def correspondence(ctx):
         if want != mod:
             add_failure(out, "corr", "Spec.GeneticCode differs from the Python oracle", rq, want, mod, confirmed=False)
     bump(out, "spec_vs_oracle", len(reqs))
+
+    # 7. the IUPAC side of the spec (GCSpec.baseSet / wcBase / toSet, used by complement_is_set_complement) against a
+    #    hard-coded IUPAC nucleotide table that does not come from cogent3
+    iupac = dict(A="A", C="C", G="G", T="T", R="AG", Y="CT", W="AT", S="CG", K="GT", M="AC", B="CGT", D="AGT", H="ACT", V="ACG", N="ACGT")
+    wc = dict(A="T", C="G", G="C", T="A")
+    reqs, wants = [], []
+    for mtname in mts:
+        u = "U" if mtname.endswith("rna") else "T"
+        tr = (lambda x, u=u: x.replace("T", u))
+        for sym, bases in list(iupac.items()) + [("-", "-"), ("?", "ACGT-")]:
+            sym_u = tr(sym)
+            reqs.append(("sym", dict(mt=mtname, op="baseset", arg=sym_u)))
+            wants.append("".join(sorted(tr(bases))))
+            reqs.append(("sym", dict(mt=mtname, op="wcset", arg=sym_u)))
+            wants.append("".join(sorted(tr("".join(wc.get(b, b) for b in bases)))))
+    for (cmd, rq), want, mod in zip(reqs, wants, drv.batch(reqs)):
+        out["evaluations"] += 1
+        if want != mod:
+            add_failure(out, "corr", f"Spec.GeneticCode {rq['op']} differs from the IUPAC table", rq, want, mod, confirmed=False)
+        else:
+            out["nontrivial"].add(("iupac", rq["mt"], rq["op"], rq["arg"]))
+    bump(out, "spec_iupac_vs_table", len(reqs))
     return out
 
 
